@@ -151,6 +151,45 @@ def all_strings(alpha, n):
             yield "".join(t)
 
 
+WSCH = " \t\n\v\f\r"
+NCH = "0123456789abcdefghijklmnopqrstuvwxyzABCDEFGHIJKLMNOPQRSTUVWXYZ_"
+GARBAGE = " \t\n\r,;:!#$%&*/<=>?@[]^{}|~\"'\x00\x7f\xff\xb2"       # characters that are not `numchar` in coq/C32ConvertSpec.v
+DERIVED = {}   # string -> True (a derivation of the Coq grammar `numeric`: must be accepted) | False (derivation + garbage: rejected)
+
+
+def derive(rng):
+    """one derivation of the inductive grammar of coq/C32ConvertSpec.v, production by production (independent of NUM_RE);
+    exponents are kept small so that no derived literal leaves the normal range of double"""
+    word = lambda w: "".join(rng.choice([ch, ch.upper()]) for ch in w)       # word: letters in either case
+    digs = lambda al, lo, hi: "".join(rng.choice(al) for _ in range(rng.randint(lo, hi)))
+    sign = lambda: rng.choice(["", "+", "-"])                                # opt_sign
+
+    def mant(al):                                                            # mantissa D
+        if rng.random() < 0.4:
+            return digs(al, 1, 6)                                            # m_int
+        i, f = digs(al, 0, 4), digs(al, 0, 4)
+        if not i + f:
+            i = digs(al, 1, 3)
+        return i + "." + f                                                   # m_frac
+
+    def oexp(mark):                                                          # opt_exp
+        return "" if rng.random() < 0.5 else word(mark) + sign() + digs("0123456789", 1, 2)
+    k = rng.random()
+    if k < 0.45:
+        body = mant("0123456789") + oexp("e")                                # b_dec
+    elif k < 0.7:
+        body = "0" + word("x") + mant("0123456789abcdefABCDEF") + oexp("p")  # b_hex
+    elif k < 0.78:
+        body = word("inf")
+    elif k < 0.85:
+        body = word("infinity")
+    elif k < 0.92:
+        body = word("nan")
+    else:
+        body = word("nan") + "(" + digs(NCH, 0, 5) + ")"                     # b_nan_seq
+    return digs(WSCH, 0, 3) + sign() + body                                  # num
+
+
 def gen_cases(c):
     rng = c.rng
     cases = []
@@ -237,6 +276,16 @@ def gen_cases(c):
             i = rng.randrange(len(s))
             s = s[:i] + rng.choice(" +-.eExp09aZ(_)") + s[i + rng.randint(0, 1):]
         cv.add(s)
+    # second exhaustive families: inf/nan forms and hexadecimal forms
+    cv |= set(all_strings("naif()1", 4)) | set(all_strings("0xXpP1.aF", 3)) | set(all_strings("1.eE+-", 5))
+    # derivations of the Coq grammar (must be accepted), and the same followed by a character that cannot occur in a number
+    DERIVED.clear()
+    for _ in range(c.pick(1500, 15000)):
+        s = derive(rng)
+        DERIVED[s] = True
+        g = s + rng.choice(GARBAGE) + "".join(rng.choice(NCH + GARBAGE + ".+-()") for _ in range(rng.randint(0, 3)))
+        DERIVED[g] = False
+    cv |= set(DERIVED)
     cases += [("CV", s) for s in sorted(cv)]
     return cases
 
@@ -324,6 +373,7 @@ def main(c):
     nontrivial = 0
     per_fn = {}
     skipped = 0
+    nder = 0
     for i, case in enumerate(cases):
         r, m = real[i], model[i]
         f = case[0]
@@ -331,6 +381,10 @@ def main(c):
         if f == "CV":
             sok, cok, sexp, mexp = cv_compare(case, r, m)
             exp = sexp
+            if case[1] in DERIVED:   # statement derived from the Coq grammar (theorems C32_convert_grammar / _trailing_garbage_rejected)
+                nder += 1
+                if DERIVED[case[1]] != (r != "THROW") or DERIVED[case[1]] != (m != "THROW"):
+                    sok = False
             if "SKIP" in sexp:
                 skipped += 1
             nontrivial += r != "THROW"
@@ -356,9 +410,10 @@ def main(c):
     c.coverage["rule"] = ("exhaustive: all %d strings of length <= 8 over {a,b,','} x 2 char delimiters x keep flag and x 6 string delimiters (tokenize); "
                           "all strings of length <= %d x 7 patterns x 5 replacements (replace_all, ps=0) and x ps in {1,3,9}; char overloads; "
                           "starts/ends_with on lengths <= 6 x <= 3; %d random strings of length 9..60 over byte alphabets incl. NUL/0xff; "
-                          "convert<double>: all strings of length <= 4 over '01.e-+x ' + grammar-generated and mutated literals (%d, %d not compared: "
-                          "under/overflow); per function: %s; non-trivial = delimiter/pattern occurs in the string (or literal accepted)"
-                          % (9841, c.pick(7, 8), c.pick(4000, 40000), per_fn.get("CV", 0), skipped, per_fn))
+                          "convert<double>: all strings of length <= 4 over '01.e-+x ', <= 4 over 'naif()1', <= 3 over '0xXpP1.aF', <= 5 over '1.eE+-' "
+                          "+ generated and mutated literals + %d derivations of the Coq grammar `numeric` (accepted) and derivations followed by a "
+                          "non-number character (rejected) (%d, %d not compared: under/overflow); per function: %s; non-trivial = delimiter/pattern occurs in the string (or literal accepted)"
+                          % (9841, c.pick(7, 8), c.pick(4000, 40000), nder, per_fn.get("CV", 0), skipped, per_fn))
     # known findings: reported under the canonical witness, which must itself be among the failures
     descr = {K_TOKC: "tokenize(s,c,false) returns a spurious empty first field when s is empty or begins with c (e.g. (\",a\",',',false) -> [\"\",\"a\"])",
              K_TRAIL: "tokenize(s,d) (string delimiter) drops an empty last field but keeps empty first/middle fields (\"a::b::\" -> [\"a\",\"b\"]): join does not reproduce s",
@@ -391,7 +446,7 @@ def main(c):
     c.coverage["spec_failures"] = len(spec_fail)
     c.coverage["model_vs_code_differences"] = len(corr_fail)
     # theorems: common file + the variant files selected above
-    files = MODEL + ["C32Proofs.v", "C32Convert.v", "Properties_C32.v",
+    files = MODEL + ["C32Proofs.v", "C32Convert.v", "C32ConvertSpec.v", "C32Grammar.v", "Properties_C32.v",
                      "Properties_C32_tokc_%s.v" % ("today" if today[K_TOKC] else "fixed"),
                      "Properties_C32_toks_trail_%s.v" % ("today" if today[K_TRAIL] else "fixed"),
                      "Properties_C32_toks_empty_%s.v" % ("today" if today[K_EMPTY] else "fixed"),
